@@ -924,8 +924,7 @@ func sweepGenerate(run *ev.Run, maxN uint32, deadline time.Time) {
 		go func() {
 			defer wg.Done()
 			for {
-				// hand out n from large to small so the long ones start first
-				k := next.Add(1)
+								k := next.Add(1)
 				if k > maxN {
 					return
 				}
@@ -933,7 +932,7 @@ func sweepGenerate(run *ev.Run, maxN uint32, deadline time.Time) {
 					cut.Store(true)
 					return
 				}
-				n := maxN - k + 1
+				n := k // ascending: a deadline cut loses the largest n only
 				bs := bases[:1]
 				if n <= 4096 || n%97 == 0 {
 					bs = bases
@@ -962,7 +961,7 @@ func sweepGenerate(run *ev.Run, maxN uint32, deadline time.Time) {
 	run.Add("evaluations", evals.Load())
 	run.Coverage["generate_shards_max_n"] = maxN
 	if cut.Load() {
-		run.NotExhaustive("GenerateShards sweep cut by its deadline (n is handed out from max_n downwards)")
+		run.NotExhaustive("GenerateShards sweep cut by its deadline (n is handed out in ascending order; generate_shards_ranges_checked tells how far it got: about sqrt(2*ranges))")
 	}
 	for key, ns := range sw.badN {
 		sort.Slice(ns, func(i, j int) bool { return ns[i] < ns[j] })
